@@ -153,3 +153,61 @@ def check(ctx):
             ctx.guarded("err-edge", "established requires Ok", mir.Site(p, b),
                         lambda c, r, l: l == "Ok" and any(x[0] == "call" and x[3] == call[0].bb for x in mir.walk(c)),
                         "check_peer_id() == Ok")
+
+
+# ------------------------------------------------------------------------------------------------------------------------
+# the peer a dial is *for*: an explicitly requested PeerId always wins over one derived from an address
+def _explicit_peer_wins(ctx):
+    prog = ctx.prog
+    g = ctx.body(SW, r"dial_opts::DialOpts::get_peer_id$")
+    adt = prog.adt(SW, r"^libp2p_swarm::dial_opts::DialOpts$")
+    fl = [f["n"] for f in adt["variants"][0]["fields"] if re.search(r"^std::option::Option<libp2p_identity::PeerId>$|Option<.*PeerId>$", f["ty"])]
+    ctx.ob("explicit-peer", "floor:DialOpts has one Option<PeerId> field", len(fl) == 1, nontrivial=False, msg=str(fl))
+    if len(fl) != 1:
+        return
+    fld = "." + fl[0]
+
+    def is_field(e):
+        return e[0] == "field" and e[2] == fl[0]
+
+    # edges on which the explicit peer is known to be absent
+    none_edges = set()
+    for bi in g.live:
+        info = g.switch_info(bi)
+        if not info:
+            continue
+        c = info[0]
+        neg = False
+        while c[0] == "un" and c[1] == "Not":
+            neg, c = not neg, c[2]
+        for tgt, ls in info[1].items():
+            if c[0] == "discr" and is_field(c[1]) and ls == {"None"}:
+                none_edges.add((bi, tgt))
+            if c[0] == "call" and c[2] and is_field(c[2][0]):
+                nm = mir.strip_generics(c[1])
+                if (nm.endswith("Option::is_none") and ls == {"false" if neg else "true"}) or (nm.endswith("Option::is_some") and ls == {"true" if neg else "false"}):
+                    none_edges.add((bi, tgt))
+    n = 0
+    for d in g.defs.get(0, []):
+        site = mir.Site(g, d[1], d[2])
+        e = g.site_expr(site)
+        r = render(e)
+        n += 1
+        # acceptable: the value is the explicit peer itself / Some(explicit peer payload) / explicit.or(..) / explicit.or_else(..)
+        first = e
+        if e[0] == "call" and re.search(r"Option::(or|or_else|xor)$", mir.strip_generics(e[1])) and e[2]:
+            first = e[2][0]
+        own = any(is_field(x) for x in mir.walk(first)) and not any(x[0] == "call" for x in mir.walk(first))
+        guarded = bool(none_edges) and g.must_pass_edges(site.bb, none_edges)
+        ctx.ob("explicit-peer", "a peer id not taken from the explicit request is returned only when none was requested", own or guarded, site.loc(),
+               "returned value %s is %s" % (r[:110], "the explicitly requested peer (first choice)" if own else
+                                            ("behind the `no explicit peer` edge" if guarded else "derived from an address although an explicit peer may be set: the address's /p2p suffix overrides the peer the dial was made for")))
+    ctx.ob("explicit-peer", "floor:get_peer_id results", n >= 1, nontrivial=False, msg="%d result sites" % n)
+
+
+_check_core05 = check
+
+
+def check(ctx):
+    _check_core05(ctx)
+    _explicit_peer_wins(ctx)
